@@ -719,21 +719,33 @@ impl<F> FnGraph<F> {
             .for_each_concurrent(
                 limit,
                 |#[cfg(not(feature = "interruptible"))] fn_id,
-                 #[cfg(feature = "interruptible")] fn_id_poll_outcome| async move {
+                 #[cfg(feature = "interruptible")] fn_id_poll_outcome| {
                     #[cfg(not(feature = "interruptible"))]
                     let fn_id = Some(fn_id);
                     #[cfg(feature = "interruptible")]
                     let (fn_id, interrupted) = fn_id_from_interrupt(fn_id_poll_outcome);
 
-                    if let Some(fn_id) = fn_id {
+                    // Hand the function to the caller as soon as its ID is taken from the
+                    // ready stream, not when the returned future is first polled:
+                    // `for_each_concurrent` may defer that first poll to a later wake-up (it
+                    // yields when in-flight futures wake themselves), and an interrupt signal
+                    // arriving in between would be followed by more than the permitted number
+                    // of function starts.
+                    let fn_fut = fn_id.map(|fn_id| {
                         let r#fn = fn_refs.node_weight(fn_id).expect("Expected to borrow fn.");
-                        fn_for_each(r#fn).await;
-                        fn_done_send_locked(fn_done_tx, fn_id).await;
-                        fns_remaining_decrement(fns_remaining, fn_done_tx).await;
-                    }
+                        (fn_id, fn_for_each(r#fn))
+                    });
 
-                    #[cfg(feature = "interruptible")]
-                    fn_done_tx_drop_if_interrupted(fn_done_tx, interrupted).await;
+                    async move {
+                        if let Some((fn_id, fn_fut)) = fn_fut {
+                            fn_fut.await;
+                            fn_done_send_locked(fn_done_tx, fn_id).await;
+                            fns_remaining_decrement(fns_remaining, fn_done_tx).await;
+                        }
+
+                        #[cfg(feature = "interruptible")]
+                        fn_done_tx_drop_if_interrupted(fn_done_tx, interrupted).await;
+                    }
                 },
             )
             .await;
@@ -860,23 +872,37 @@ impl<F> FnGraph<F> {
             .for_each_concurrent(
                 limit,
                 |#[cfg(not(feature = "interruptible"))] fn_id,
-                 #[cfg(feature = "interruptible")] fn_id_poll_outcome| async move {
+                 #[cfg(feature = "interruptible")] fn_id_poll_outcome| {
                     #[cfg(not(feature = "interruptible"))]
                     let fn_id = Some(fn_id);
                     #[cfg(feature = "interruptible")]
                     let (fn_id, interrupted) = fn_id_from_interrupt(fn_id_poll_outcome);
 
-                    if let Some(fn_id) = fn_id {
+                    // Hand the function to the caller as soon as its ID is taken from the
+                    // ready stream, not when the returned future is first polled:
+                    // `for_each_concurrent` may defer that first poll to a later wake-up (it
+                    // yields when in-flight futures wake themselves), and an interrupt signal
+                    // arriving in between would be followed by more than the permitted number
+                    // of function starts.
+                    let fn_fut = fn_id.map(|fn_id| {
                         let mut r#fn = fn_mut_refs[fn_id.index()]
                             .try_write()
                             .expect("Expected to borrow fn mutably.");
-                        fn_for_each(&mut r#fn).await;
-                        fn_done_send_locked(fn_done_tx, fn_id).await;
-                        fns_remaining_decrement(fns_remaining, fn_done_tx).await;
-                    }
+                        let fn_fut = fn_for_each(&mut r#fn);
+                        (fn_id, r#fn, fn_fut)
+                    });
 
-                    #[cfg(feature = "interruptible")]
-                    fn_done_tx_drop_if_interrupted(fn_done_tx, interrupted).await;
+                    async move {
+                        if let Some((fn_id, r#fn, fn_fut)) = fn_fut {
+                            fn_fut.await;
+                            drop(r#fn);
+                            fn_done_send_locked(fn_done_tx, fn_id).await;
+                            fns_remaining_decrement(fns_remaining, fn_done_tx).await;
+                        }
+
+                        #[cfg(feature = "interruptible")]
+                        fn_done_tx_drop_if_interrupted(fn_done_tx, interrupted).await;
+                    }
                 },
             )
             .await;
@@ -1498,31 +1524,43 @@ impl<F> FnGraph<F> {
             .for_each_concurrent(
                 limit,
                 |#[cfg(not(feature = "interruptible"))] fn_id,
-                 #[cfg(feature = "interruptible")] fn_id_poll_outcome| async move {
+                 #[cfg(feature = "interruptible")] fn_id_poll_outcome| {
                     #[cfg(not(feature = "interruptible"))]
                     let fn_id = Some(fn_id);
                     #[cfg(feature = "interruptible")]
                     let (fn_id, interrupted) = fn_id_from_interrupt(fn_id_poll_outcome);
 
-                    if let Some(fn_id) = fn_id {
+                    // Hand the function to the caller as soon as its ID is taken from the
+                    // ready stream, not when the returned future is first polled:
+                    // `for_each_concurrent` may defer that first poll to a later wake-up (it
+                    // yields when in-flight futures wake themselves), and an interrupt signal
+                    // arriving in between would be followed by more than the permitted number
+                    // of function starts.
+                    let fn_fut = fn_id.map(|fn_id| {
                         let r#fn = fn_refs.node_weight(fn_id).expect("Expected to borrow fn.");
-                        if let Err(e) = fn_try_for_each(r#fn).await {
-                            result_tx_ref
-                                .send(e)
-                                .await
-                                .expect("Scheduler failed to send Err result in `result_tx`.");
+                        (fn_id, fn_try_for_each(r#fn))
+                    });
 
-                            // Close `fn_done_rx`, which means `fn_ready_queuer` should return
-                            // `Poll::Ready(None)`.
-                            fn_done_tx.write().await.take();
-                        };
+                    async move {
+                        if let Some((fn_id, fn_fut)) = fn_fut {
+                            if let Err(e) = fn_fut.await {
+                                result_tx_ref
+                                    .send(e)
+                                    .await
+                                    .expect("Scheduler failed to send Err result in `result_tx`.");
 
-                        fn_done_send_locked(fn_done_tx, fn_id).await;
-                        fns_remaining_decrement(fns_remaining, fn_done_tx).await;
+                                // Close `fn_done_rx`, which means `fn_ready_queuer` should return
+                                // `Poll::Ready(None)`.
+                                fn_done_tx.write().await.take();
+                            };
+
+                            fn_done_send_locked(fn_done_tx, fn_id).await;
+                            fns_remaining_decrement(fns_remaining, fn_done_tx).await;
+                        }
+
+                        #[cfg(feature = "interruptible")]
+                        fn_done_tx_drop_if_interrupted(fn_done_tx, interrupted).await;
                     }
-
-                    #[cfg(feature = "interruptible")]
-                    fn_done_tx_drop_if_interrupted(fn_done_tx, interrupted).await;
                 },
             )
             .await;
@@ -1771,33 +1809,48 @@ impl<F> FnGraph<F> {
             .for_each_concurrent(
                 limit,
                 |#[cfg(not(feature = "interruptible"))] fn_id,
-                 #[cfg(feature = "interruptible")] fn_id_poll_outcome| async move {
+                 #[cfg(feature = "interruptible")] fn_id_poll_outcome| {
                     #[cfg(not(feature = "interruptible"))]
                     let fn_id = Some(fn_id);
                     #[cfg(feature = "interruptible")]
                     let (fn_id, interrupted) = fn_id_from_interrupt(fn_id_poll_outcome);
 
-                    if let Some(fn_id) = fn_id {
+                    // Hand the function to the caller as soon as its ID is taken from the
+                    // ready stream, not when the returned future is first polled:
+                    // `for_each_concurrent` may defer that first poll to a later wake-up (it
+                    // yields when in-flight futures wake themselves), and an interrupt signal
+                    // arriving in between would be followed by more than the permitted number
+                    // of function starts.
+                    let fn_fut = fn_id.map(|fn_id| {
                         let mut r#fn = fn_mut_refs[fn_id.index()]
                             .try_write()
                             .expect("Expected to borrow fn mutably.");
-                        if let Err(e) = fn_try_for_each(&mut r#fn).await {
-                            result_tx_ref
-                                .send(e)
-                                .await
-                                .expect("Scheduler failed to send Err result in `result_tx`.");
+                        let fn_fut = fn_try_for_each(&mut r#fn);
+                        (fn_id, r#fn, fn_fut)
+                    });
 
-                            // Close `fn_done_rx`, which means `fn_ready_queuer` should return
-                            // `Poll::Ready(None)`.
-                            fn_done_tx.write().await.take();
-                        };
+                    async move {
+                        if let Some((fn_id, r#fn, fn_fut)) = fn_fut {
+                            let result = fn_fut.await;
+                            drop(r#fn);
+                            if let Err(e) = result {
+                                result_tx_ref
+                                    .send(e)
+                                    .await
+                                    .expect("Scheduler failed to send Err result in `result_tx`.");
 
-                        fn_done_send_locked(fn_done_tx, fn_id).await;
-                        fns_remaining_decrement(fns_remaining, fn_done_tx).await;
+                                // Close `fn_done_rx`, which means `fn_ready_queuer` should return
+                                // `Poll::Ready(None)`.
+                                fn_done_tx.write().await.take();
+                            };
+
+                            fn_done_send_locked(fn_done_tx, fn_id).await;
+                            fns_remaining_decrement(fns_remaining, fn_done_tx).await;
+                        }
+
+                        #[cfg(feature = "interruptible")]
+                        fn_done_tx_drop_if_interrupted(fn_done_tx, interrupted).await;
                     }
-
-                    #[cfg(feature = "interruptible")]
-                    fn_done_tx_drop_if_interrupted(fn_done_tx, interrupted).await;
                 },
             )
             .await;
